@@ -133,6 +133,39 @@ CLAIMED = {
             'provoked; the asn1! expansion itself is not executed (its wrapper is re-read from source)',
             'Coq proof over an abstract destination model + regenerated macro wrapper + differential correspondence on real file '
             'systems and child processes'),
+    'C10': ('proof',
+            'Theorems over a model of the compilation driver (the map keyed by bare name, validation, grouping by module, emission in key '
+            'order, warning collection) that is parametric in what linker and generator do to one definition (any outcome function): for '
+            'any number of sources, modules and assignments with distinct bare names every assignment is represented in its module\'s '
+            'block, or is the subject of a warning, or is of a no-output kind; nothing is represented that is not an assignment with '
+            'bindings; changing the outcome of one assignment leaves every other represented exactly as before. The hypothesis is shown '
+            'necessary (C10_duplicate_names_refuted = known finding). Tied by correspondence: blocks, order of names and number of '
+            'warnings of real compilations against the model inside Coq; item-by-item comparison of independent bindings with and '
+            'without 1..3 replaced assignments; malformed inputs return no bindings',
+            '§6 C10',
+            'partial: the inside of linker and generator is abstract in the theorems (instantiated per generated definition by the '
+            'search); warnings are counted, not attributed; two known findings',
+            'Coq proof over a parametric driver model (sorted-map lemmas) + differential correspondence + differential locality search'),
+    'C11': ('proof',
+            'Theorems: the name-keyed map is canonical (insertion order irrelevant for distinct keys), hence blocks and warnings of the '
+            'driver model depend only on the SET of definitions for any behaviour of linker and generator; permuting sources, modules in '
+            'a source or assignments in a module are such permutations; with equal names the order matters (refuted = known finding). '
+            'Search for what a theorem cannot carry: byte-identical bindings and equal sorted warnings across reversal, random and '
+            'exhaustive (<= 5 units) permutations at all three levels, both back ends, repetition in one process, unrelated preceding '
+            'compilations, 2..16 concurrent threads, real-world modules twice',
+            '§6 C11',
+            'partial: purity of linker and generator (no hashed iteration, no process-wide mutable state) is observed, not derived',
+            'Coq proof (permutation invariance of the sorted map) + repetition / permutation / concurrency search'),
+    'C12': ('proof',
+            'Theorems: which definitions of a module reach the generator, and in which order, does not depend on the other modules of the '
+            'compilation (sorted-map uniqueness); an IMPORTS clause of plain type and value references becomes a use line of exactly these '
+            'symbols under their converted names, in order; a clause naming a class or parameterized reference becomes a wildcard (known '
+            'finding). Search: sets of 2..5 modules with differing tagging / extensibility defaults and import graphs, some references '
+            'module-qualified: each module\'s `pub mod` block compared between the compilation of all modules (several orders, one or '
+            'several sources), of its import closure only and of random supersets; use lines against the model inside Coq',
+            '§6 C12',
+            'partial: that linking reads only imported modules and that defaults do not leak is decided by the comparison, not derived',
+            'Coq proof (driver model + use-line model over the C16 name conversions) + differential compilation of module subsets'),
     'C08': ('proof',
             'partial. Proved for every input: the nestable-comment scanner never slices out of range; the error-excerpt arithmetic '
             '(until_next_unindented, contextualize) stays in range and on character boundaries for every report the position '
